@@ -443,7 +443,10 @@ pub fn build(
             regions
                 .iter()
                 .flat_map(|r| r.type_ref.alignment(&semantic.type_registry)),
-        );
+        )
+        .with_context(|| {
+            format!("minimum required alignment for type `{resolvee_path}` overflows")
+        })?;
 
         // Ensure that the alignment is at least the minimum required alignment.
         if required_alignment > alignment {
